@@ -427,8 +427,8 @@ def rule_b2(ctx, F):
 # ------------------------------------------------------------------------------------------------
 # B3: no use of a handle after this function gave its reference away
 # ------------------------------------------------------------------------------------------------
-# by-hand exemptions of B3, one reason each (exact function + variable)
-B3_TABLED = {("ts_parser__breakdown_top_of_stack", "parent"):
+# by-hand exemptions of B3, one reason each (exact function; the use must sit inside a LOG macro)
+B3_TABLED = {"ts_parser__breakdown_top_of_stack":
              "only the LOG line reads parent's symbol after the release; a node being broken down was reused from the old tree, which the parser keeps retained until ts_parser_reset"}
 RELEASERS = {"ts_subtree_release": 1, "ts_current_free": 0, "ts_subtree_array_delete": 1, "ts_stack_delete": 0, "ts_tree_delete": 0, "ts_language_delete": 0}
 
@@ -475,8 +475,8 @@ def rule_b3(ctx, F):
             s = Search(fn, UseAfterRelease(fn, vid, rel, dpts), track=True)
             v = s.run(0)
             key = "%s:%s" % (fn.name, nm)
-            if v is not None and (fn.name, nm) in B3_TABLED and set(fn.macro(v.pt)) & {"LOG", "TREE_NAME", "SYM_NAME"}:
-                ctx.ok("B3", key, "tabled: " + B3_TABLED[(fn.name, nm)], nontrivial=False)
+            if v is not None and fn.name in B3_TABLED and set(fn.macro(v.pt)) & {"LOG", "TREE_NAME", "SYM_NAME"}:
+                ctx.ok("B3", key, "tabled: " + B3_TABLED[fn.name], nontrivial=False)
                 continue
             if v is None:
                 ctx.ok("B3", key, "`%s` is not touched again on any path after %s gave its reference away" % (nm, fn.name), sample={"function": fn.name, "variable": nm} if n <= 3 else None)
